@@ -75,6 +75,11 @@ impl KeyMap {
     }
 }
 
+/// what `rv replay` needs to re-create the context of a fixed-composition case
+pub fn fx_initial(bits: u32) -> Value {
+    json!({"layout": SYNTHETIC, "database": false, "option_bits": bits & 31, "user_files": {}})
+}
+
 pub fn opt_names(bits: u32) -> Value {
     json!({"auto_vowel": bits & 1 != 0, "auto_chandra": bits & 2 != 0, "traditional_kar": bits & 4 != 0,
            "old_reph": bits & 8 != 0, "old_kar_order": bits & 16 != 0})
@@ -236,7 +241,7 @@ pub fn compare(w: &mut Worker, km: &KeyMap, bits: u32, evs: &[Ev], imp: &[(Strin
             if m.as_slice() != imp {
                 let at = (0..imp.len().min(m.len())).find(|&i| m[i] != imp[i]).unwrap_or(imp.len().min(m.len()));
                 rep.diff(json!({"what": format!("model and implementation differ ({} correspondence, fixed composition)", prop),
-                    "layout_file": w.layout_path, "options": opt_names(bits), "events": describe(km, evs), "first_difference_at_event": at,
+                    "replay_kind": "session", "initial": fx_initial(bits), "layout_file": w.layout_path, "options": opt_names(bits), "events": describe(km, evs), "first_difference_at_event": at,
                     "implementation": imp.iter().map(|(t, o)| json!([t, o])).collect::<Vec<_>>(),
                     "model": m.iter().map(|(t, o)| json!([t, o])).collect::<Vec<_>>()}));
                 return false;
@@ -316,7 +321,7 @@ pub fn c12(tier: &str, seed: u64, meta: &str) -> Report {
                         if *after != format!("{}{}", before, v) { nontrivial = true; }
                         if exp != *after {
                             rep.fail(json!({"what": if is_reph { "old-style reph placed differently from the rule (C13 clause used by C12)" } else { "a key did not rewrite the text as the documented rule table says" },
-                                "layout_file": SYNTHETIC, "options": opt_names(bits), "events": describe(km, &evs), "at_event": n,
+                                "layout_file": SYNTHETIC, "replay_kind": "session", "initial": fx_initial(bits), "options": opt_names(bits), "events": describe(km, &evs), "at_event": n,
                                 "text_before": before, "key_value": v, "expected_text": exp, "implementation_text": after}));
                         }
                     }
@@ -403,7 +408,7 @@ pub fn c13(tier: &str, seed: u64, meta: &str) -> Report {
         let n = evs.len() - 1;
         let before = if n == 0 { String::new() } else { imp[n - 1].0.clone() };
         let after = imp[n].0.clone();
-        let info = |what: &str, exp: Option<&str>| json!({"what": what, "layout_file": SYNTHETIC, "options": opt_names(bits), "events": describe(km, &evs),
+        let info = |what: &str, exp: Option<&str>| json!({"what": what, "layout_file": SYNTHETIC, "replay_kind": "session", "initial": fx_initial(bits), "options": opt_names(bits), "events": describe(km, &evs),
             "text_before_reph_key": before, "implementation_text": after, "expected_text": exp});
         if reph_on {
             if !is_reph_insertion(&before, &after) {
